@@ -5,7 +5,7 @@
    nr_cpus_mask >= 1 (with -DURCU_VERIF_MIN_PARTITION_PER_THREAD_ORDER=0) makes every resize level use the partitioned multi-thread path;
    create_fail_mask makes chosen pthread_create calls of the run fail with EAGAIN (single-thread fallback for the leftover partitions).
    ops: A<i> add entry i, U<i> add_unique, R<i> add_replace, L<i> lookup (hash,key) of entry i (sets the thread's iterator), N next_duplicate on
-   the iterator, X del the iterator's node, P<i> replace the iterator's node by entry i, T full traversal (first/next), Z<k> resize to 2^k, z<d> resize to d (any count),
+   the iterator, X del the iterator's node, x the same followed - when it succeeds - by a grace period and the release of the node (every later access to it is reported), P<i> replace the iterator's node by entry i, T full traversal (first/next), Z<k> resize to 2^k, z<d> resize to d (any count),
    C count_nodes.  Each operation is one read-side critical section (resize is called outside any). */
 #define _LGPL_SOURCE
 #include <stdbool.h>
@@ -56,6 +56,8 @@ static void body(int t){ struct cds_lfht_iter it; it.node=0; it.next=0; int itke
 	case 'L': { p++; itkey=EK[i]; vs_call("lookup",itkey); f_lock(); cds_lfht_lookup(ht,EH[i],match,&itkey,&it); f_unlock(); vs_ret("lookup",idof(cds_lfht_iter_get_node(&it))); break; }
 	case 'N': { if(!it.node){ vs_call("skip",0); vs_ret("skip",0); break; } vs_call("nextdup",idof(it.node)); f_lock(); cds_lfht_next_duplicate(ht,match,&itkey,&it); f_unlock(); vs_ret("nextdup",idof(cds_lfht_iter_get_node(&it))); break; }
 	case 'X': { vs_call("del",idof(it.node)); f_lock(); int r=cds_lfht_del(ht,it.node); f_unlock(); vs_ret("del",r); break; }
+	case 'x': { struct cds_lfht_node *dn=it.node; vs_call("del",idof(dn)); f_lock(); int r=cds_lfht_del(ht,dn); f_unlock(); vs_ret("del",r);
+		if(!r){ f_sync(); vs_note("reclaim %d",((struct ent*)dn)->id); vs_retire(dn,sizeof(struct ent)); } break; }   /* the owner waits for a grace period and frees the node */
 	case 'P': { p++; vs_call("replace",idof(it.node)); vs_note("with %d",i); f_lock(); int r=cds_lfht_replace(ht,&it,EH[i],match,&E[i].key,&E[i].n); f_unlock(); vs_ret("replace",r); break; }
 	case 'T': { char buf[512]; int l=0; buf[0]=0; struct cds_lfht_iter ti; struct cds_lfht_node *x; vs_call("trav",0); f_lock();
 		cds_lfht_for_each(ht,&ti,x){ if(l<480) l+=sprintf(buf+l,"%d,",((struct ent*)x)->id); } f_unlock(); vs_note("visited %s",buf); vs_ret("trav",0); break; }
